@@ -217,7 +217,7 @@ Print Assumptions C11_guesser_iff_translated.
    These come LAST: the Require fails when the translation or its equality proofs no longer check. *)
 From Coq Require Import Floats.
 From Pcfg Require Import OmenTrainer OmenTrainerRt OmenTrainerProofs OmenTrainerGenProofs OmenTrainerGenProofsOut
-     OmenTrainerGenProofsAlpha OmenTrainerGenInst.
+     OmenTrainerGenProofsAlpha OmenTrainerGenInstOut OmenTrainerGenInst.
 From PcfgGen Require Import OmenTrainer_gen OmenTrainerOut_gen OmenTrainerAlpha_gen.
 
 Theorem C11_source_calc_level_is_model :
